@@ -25,7 +25,7 @@ def run(ctx):
                 "modelled_types": kv.get("modelled_types", ""), "codec_model_rows": kv.get("codec_model_rows", ""), "schema_types_without_probe": kv.get("schema_types_without_probe", ""),
                 "max_alloc_per_input_byte": kv.get("max_alloc_per_input_byte", ""), "low_acceptance_types": kv.get("low_acceptance_types", "")}
     return generic.standard(
-        ctx, ["MlsVerif.Props.C12", "MlsVerif.Props.C12Custom", "MlsVerif.Props.C12Gen", "MlsVerif.Props.C12GenCodecs"], ["c12"], "c12", "c12", SOURCES,
+        ctx, ["MlsVerif.Props.C12", "MlsVerif.Props.C12Custom", "MlsVerif.Props.C12Gen", "MlsVerif.Props.C12GenCodecs", "MlsVerif.Props.GenTables"], ["c12"], "c12", "c12", SOURCES,
         rule="per decodable generated type (73 of ~100; the rest are encode-only inputs of hashes/signatures): 220 (thorough 3000) inputs = 40% valid "
              "(schema-directed generator with boundary lengths 0/63/64/16383/16384, for the test types the real encoder on random values), 50% "
              "mutated (truncate, bit flip, special byte, insert, delete, non-minimal varint, oversized length, invalid varint prefix, junk tail, "
